@@ -2,6 +2,7 @@ package checks
 
 import (
 	"fmt"
+	"math"
 	"strings"
 
 	"pgregory.net/rapid"
@@ -93,9 +94,16 @@ func genC05(t *rapid.T) any {
 		c.HasLimit = true
 		n := len(tb.Rows)
 		c.Limit = rapid.IntRange(0, n+3).Draw(t, "limit")
+		if rapid.IntRange(0, 9).Draw(t, "hugelimit") == 0 {
+			// "values beyond the row count" up to the largest the syntax admits
+			c.Limit = rapid.SampledFrom([]int{math.MaxInt64, math.MaxInt64 - 1, 1 << 62, 1 << 32, 1<<31 - 1, 1000000}).Draw(t, "hugelimitval")
+		}
 		c.Spelling = rapid.SampledFrom([]string{"limit", "limit-offset", "comma", "limit-offset"}).Draw(t, "spelling")
 		if c.Spelling != "limit" {
 			c.Offset = rapid.IntRange(0, n+3).Draw(t, "offset")
+			if rapid.IntRange(0, 14).Draw(t, "hugeoffset") == 0 {
+				c.Offset = rapid.SampledFrom([]int{math.MaxInt64, 1 << 62, 1 << 32, 1000000}).Draw(t, "hugeoffsetval")
+			}
 		}
 	}
 	return c
@@ -268,10 +276,15 @@ func checkC05(c *C05Case) Result {
 			return res
 		}
 		n, m := c.Limit, c.Offset
-		lo := minInt(m, len(s.Rows))
-		hi := minInt(m+n, len(s.Rows))
+		// all arithmetic relative to the sequence length: n and m may be as large as MaxInt64
+		total := len(s.Rows)
+		lo := minInt(m, total)
+		hi := total
+		if n < total-lo {
+			hi = lo + n
+		}
 		window := s.Rows[lo:hi]
-		straddle = m < len(s.Rows) && m+n > len(s.Rows)
+		straddle = m < total && n > total-m
 		switch {
 		case m >= len(s.Rows):
 			res.Labels = append(res.Labels, "window:offset-beyond")
@@ -279,7 +292,7 @@ func checkC05(c *C05Case) Result {
 			res.Labels = append(res.Labels, "window:straddle")
 		case n == 0:
 			res.Labels = append(res.Labels, "window:zero")
-		case m+n == len(s.Rows):
+		case m <= total && n == total-m:
 			res.Labels = append(res.Labels, "window:exact-end")
 		default:
 			res.Labels = append(res.Labels, "window:inside")
